@@ -29,6 +29,7 @@ Input families beyond the call-indexed fault scripts:
   the correct value, executing at most the bodies of a recomputation, and both must return."""
 import contextlib
 import itertools
+import random
 import json
 import threading
 import time
@@ -993,6 +994,94 @@ THOROUGH_BATCH = 40000     # thorough tier: scenarios generated / evaluated / co
 KEEP_VIOLATIONS = 400      # oracle failures kept between batches (the lightest ones; the count of all of them is kept)
 
 
+
+# --- persistent Cached nodes (labrea.cached(x, backend) kept across the history; a dataset builds a new Cached per call),
+# --- histories mixing evaluate / __call__ / validate / keys / explain: oracle only (round 5, seed C17-r5seed1)
+PERSIST_OPS = ("evaluate", "evaluate", "call", "validate", "validate", "keys", "explain")
+
+
+def gen_persistent(rng, depth):
+    dicts = [(rng.randint(1, 3), rng.randint(1, 3)) for _ in range(2)]
+    hist = []
+    for _ in range(rng.randint(3, 9)):
+        x, y = rng.choice(dicts)
+        hist.append([rng.choice(PERSIST_OPS), rng.randrange(depth), x, y])
+    script = "".join(rng.choice("MLF") if rng.random() < 0.4 else "B" for _ in range(rng.randint(2, 24)))
+    return script, hist
+
+
+def run_persistent(script, hist, depth):
+    """-> [(index, op, got, want)] for every operation of the history that failed or returned something else than the
+    eager computation; the backends follow the Cache contract and misbehave per the script (M, L, F as everywhere here)."""
+    from labrea import Option, cached
+    from labrea.application import FunctionApplication
+    sc = Script()
+    sc.reset(script)
+    cls = make_cache_class(None)
+
+    def mk(i, inner):
+        def body(x, y):
+            return ("t", i, x, y)
+        body.__name__ = f"p{i}"
+        return FunctionApplication(body, x=Option("X"), y=inner)
+
+    node, nodes = Option("Y"), []
+    for i in range(depth):
+        node = cached(mk(i, node), cls(sc, i))
+        nodes.append(node)
+
+    def want(i, x, y):
+        v = y
+        for j in range(i + 1):
+            v = ("t", j, x, v)
+        return v
+
+    out = []
+    for idx, (op, i, x, y) in enumerate(hist):
+        o = {"X": x, "Y": y}
+        sc.eval_calls, sc.budget = 0, 40 * depth + 40
+        w = None
+        try:
+            if op in ("evaluate", "call"):
+                w = want(i, x, y)
+                r = nodes[i].evaluate(o) if op == "evaluate" else nodes[i](o)
+            elif op == "validate":
+                r = nodes[i].validate(o)
+            else:
+                w = ["X", "Y"]
+                r = sorted(nodes[i].keys(o) if op == "keys" else nodes[i].explain(o))
+            got = repr(r)
+        except Livelock:
+            got = "no result"
+        except Exception as e:      # noqa: BLE001
+            got = "raise:" + type(e).__name__
+        if got != repr(w):
+            out.append((idx, op, got, repr(w)))
+    return out
+
+
+def persistent_stream(ctx, viol):
+    rng = random.Random(ctx.rng.random())
+    n = 1500 if ctx.quick else 20000
+    ops = {}
+    fixed = [("BB" + b, [["evaluate", 0, 1, 1], ["validate", 0, 1, 1], ["evaluate", 0, 1, 1]], 1) for b in "MLFB"]
+    for k in range(n):
+        if k < len(fixed):
+            script, hist, depth = fixed[k]
+        else:
+            depth = 1 + k % 3
+            script, hist = gen_persistent(rng, depth)
+        for h in hist:
+            ops[h[0]] = ops.get(h[0], 0) + 1
+        bad = run_persistent(script, hist, depth)
+        for idx, op, got, w in bad[:1]:
+            viol.append(dict(desc=f"persistent cached(...) node, history mixing evaluate/validate/keys/explain: {op}() under a misbehaving "
+                                  "backend failed or returned something else than the eager computation",
+                             graph="persistent-chain", shape=[depth], script=script, history=hist, persistent=True,
+                             evaluation_index=idx, got=got, want=w))
+    return dict(scenarios=n, operations=ops)
+
+
 def violation_key(v):
     return lib.stable_hash([v["desc"], v["shape"], v["script"], v["history"], v["evaluation_index"],
                             v.get("style"), v.get("phases"), v.get("poison"), v.get("env"), v.get("pair"), v.get("miss")])
@@ -1244,6 +1333,9 @@ def _run(ctx, graphs, pool, jobs):
                                  impl=line, model=ml))
     lib.log(f"[C17] reference side: {len(ref_exprs)} vm_compute cases in {time.time() - t0:.1f}s")
 
+    n_before = len(viol)
+    streams["persistent-node"] = persistent_stream(ctx, viol)
+    n_viol += len(viol) - n_before
     viol = trim(viol)
     violations = [dict(v, finding=None) for v in viol[:50]]
     nx = (6, 6, 0, 0) if ctx.quick else EXH_THOROUGH
@@ -1305,6 +1397,11 @@ def replay(ctx, payload):
             if isinstance(b.get("scenario"), dict) and "script" in b["scenario"]:
                 v = b["scenario"]
                 break
+    if v.get("persistent"):
+        bad = run_persistent(v["script"], v["history"], v["shape"][0])
+        return bool(bad), {"persistent_chain_depth": v["shape"][0], "script": v["script"], "history": v["history"],
+                           "model": "not modelled (Model/CacheFault.v has evaluations only)",
+                           "oracle_violations": [dict(index=i, op=op, got=g, want=w) for i, op, g, w in bad[:3]]}
     if "script" not in v:
         return True, {"note": "payload names no scenario (a proof obligation or the harness itself broke); re-run ./check C17",
                       "payload": payload}
